@@ -225,6 +225,19 @@ def step (s : St) (toks : List String) : St × String :=
     | _, _, _, _, _, _ => (s, "bad-op")
   | ["EXTREN"] => apply s .extRename 0 {}
   | ["EXTRM"] => apply s .extRemove 0 {}
+  -- an external tool puts a fresh, empty file at the path of the current file (non-direct namings,
+  -- and only if none is there)
+  | ["EXTTOUCH", now] =>
+    match now.toNat?, s.st.act with
+    | some now, some a =>
+      let direct := match s.st.cfg.rot with
+        | some r => r.naming.writesDirect
+        | none => false
+      if !direct && (s.st.dir.get a.path).isNone then
+        ({ s with st := { s.st with dir := s.st.dir.set a.path ⟨[], now⟩ } }, "ok")
+      else (s, "ok")
+    | some _, none => (s, "ok")
+    | none, _ => (s, "bad-op")
   | ["REOPEN", now, fl] =>
     match now.toNat?, parseFaults fl with
     | some now, some fl => apply s .reopen now fl
